@@ -45,6 +45,74 @@ const customSchemaYAML = `definitions:
         type: integer
 `
 
+// a custom schema that SHADOWS names of the built-in one (as the repository's own krusty test schema does): its
+// PodTemplateSpec/PodSpec/Container are cut down, so lists below them merge by other keys than under the built-in schema
+const shadowSchemaYAML = `definitions:
+  v1alpha1.MyCRD:
+    type: object
+    properties:
+      apiVersion: {type: string}
+      kind: {type: string}
+      metadata: {type: object}
+      spec:
+        type: object
+        properties:
+          template:
+            "$ref": "#/definitions/io.k8s.api.core.v1.PodTemplateSpec"
+    x-kubernetes-group-version-kind:
+    - {group: example.com, kind: MyCRD, version: v1alpha1}
+  io.k8s.api.core.v1.PodTemplateSpec:
+    type: object
+    properties:
+      metadata:
+        "$ref": "#/definitions/io.k8s.apimachinery.pkg.apis.meta.v1.ObjectMeta"
+      spec:
+        "$ref": "#/definitions/io.k8s.api.core.v1.PodSpec"
+  io.k8s.apimachinery.pkg.apis.meta.v1.ObjectMeta:
+    type: object
+    properties:
+      name: {type: string}
+  io.k8s.api.core.v1.PodSpec:
+    type: object
+    properties:
+      containers:
+        type: array
+        items:
+          "$ref": "#/definitions/io.k8s.api.core.v1.Container"
+        x-kubernetes-patch-merge-key: name
+        x-kubernetes-patch-strategy: merge
+  io.k8s.api.core.v1.Container:
+    type: object
+    properties:
+      name: {type: string}
+      image: {type: string}
+      command:
+        type: array
+        items: {type: string}
+`
+
+// podBody: a pod template whose lists merge differently under the built-in schema (volumeMounts by mountPath, ports by
+// containerPort, env by name) and under a schema that knows nothing about them
+const podBase = `  template:
+    spec:
+      containers:
+      - name: app
+        image: app:1
+        ports:
+        - {containerPort: 80, name: http}
+        volumeMounts:
+        - {name: data, mountPath: /data}
+`
+const podPatch = `  template:
+    spec:
+      containers:
+      - name: app
+        ports:
+        - {containerPort: 81, name: http}
+        volumeMounts:
+        - {name: data, mountPath: /var/cache}
+`
+
 // c01Tree: the tree of a C01 case is a pure function of its seed. custom=true adds `openapi: {path: …}` at the top.
 func c01Tree(cs int64, forceCustom int) (*Tree, bool) {
 	r := rand.New(rand.NewSource(cs))
@@ -146,6 +214,40 @@ func c01Tree(cs int64, forceCustom int) (*Tree, bool) {
 		top.Kust["openapi"] = Obj{"path": "schema.yaml"}
 	} else if r.Intn(6) == 0 {
 		top.Kust["openapi"] = Obj{"version": "v1.21.2"}
+	}
+	// schema-sensitive merges: a workload (or, under a shadowing custom schema, a custom kind reusing the built-in names)
+	// patched in lists whose merge key comes from the schema — what such a build emits depends on which definitions the
+	// references resolve to, so anything that outlives a schema switch shows here
+	if r2 := rand.New(rand.NewSource(cs ^ 0x7a11)); r2.Intn(3) == 0 {
+		resFile, resDoc, patch := "", "", ""
+		if custom {
+			top.Files["schema.yaml"] = shadowSchemaYAML
+			resFile = "vm-mycrd.yaml"
+			resDoc = "apiVersion: example.com/v1alpha1\nkind: MyCRD\nmetadata:\n  name: vm-svc\nspec:\n" + podBase
+			patch = "apiVersion: example.com/v1alpha1\nkind: MyCRD\nmetadata:\n  name: vm-svc\nspec:\n" + podPatch
+		} else {
+			resFile = "vm-deploy.yaml"
+			resDoc = "apiVersion: apps/v1\nkind: Deployment\nmetadata:\n  name: vm-web\nspec:\n" + podBase
+			patch = "apiVersion: apps/v1\nkind: Deployment\nmetadata:\n  name: vm-web\nspec:\n" + podPatch
+		}
+		ps, _ := top.Kust["patches"].([]interface{})
+		top.Kust["patches"] = append(ps, Obj{"path": "vm-patch.yaml"})
+		top.Files["vm-patch.yaml"] = patch
+		top.Files[resFile] = resDoc
+		topDir := top.Dir
+		prev := t.PostWrite
+		t.PostWrite = func(fs filesys.FileSystem, root string) {
+			if prev != nil {
+				prev(fs, root)
+			}
+			p := root + "/" + topDir + "/kustomization.yaml"
+			b, _ := fs.ReadFile(p)
+			if strings.Contains(string(b), "\nresources:\n") || strings.HasPrefix(string(b), "resources:\n") {
+				fs.WriteFile(p, []byte(strings.Replace(string(b), "resources:\n", "resources:\n- "+resFile+"\n", 1)))
+			} else {
+				fs.WriteFile(p, append(b, []byte("resources:\n- "+resFile+"\n")...))
+			}
+		}
 	}
 	return t, custom
 }
